@@ -78,13 +78,14 @@ def check(prog: Program, tier: str) -> Result:
     _r4_q(prog, res)
     _r4_r(prog, res)
     _r4_s(prog, res)
+    _r4_t(prog, res)
     # R4.p: arithmetic / ordering on the value of a matched constant raises TypeError inside the formatter for 'a' or None
     # unless the selecting template pins the value type - decided by the C17 check (R17.9), adopted
     from . import c17 as _c17
     _tmp = Result("C17", "", "")
     _c17._r17_9(prog, _tmp)
     res.adopt(_tmp, {"R17.9"}, "R4.p", "an unpinned constant can be a str or None: the operation raises TypeError out of the rule and out of format_code")
-    res.floors.update({"R4.s": 20, "R4.r": 1, "R4.q": 30, "R4.p": 3, "R4.o": 2, "R4.n": 2, "R4.m": 2, "R4.a": 25, "R4.b": 200, "R4.c": 4, "R4.d": 18, "R4.e": 8, "R4.f": 40, "R4.h": 2, "R4.i": 2, "R4.j": 5, "R4.k": 1})
+    res.floors.update({"R4.t": 0, "R4.s": 20, "R4.r": 1, "R4.q": 30, "R4.p": 3, "R4.o": 2, "R4.n": 2, "R4.m": 2, "R4.a": 25, "R4.b": 200, "R4.c": 4, "R4.d": 18, "R4.e": 8, "R4.f": 40, "R4.h": 2, "R4.i": 2, "R4.j": 5, "R4.k": 1})
     return res
 
 
@@ -1245,6 +1246,80 @@ def _r4_s(prog: Program, res: Result) -> None:
         raise AnalysisError("R4.s: no operator field of a constructed node found")
 
 
+def _r4_t(prog: Program, res: Result) -> None:
+    """`set.union(*xs)` / `set.intersection(*xs)` is an UNBOUND method call: the first element of xs becomes `self` and must be a
+    set - for a frozenset it raises TypeError ("descriptor 'union' for 'set' objects doesn't apply to a 'frozenset' object").
+    The kind of the elements is read from their producers: a subscript / .values() of a dict whose values are set displays,
+    set comprehensions, set(..) or defaultdict(set) - or the results of repository functions whose returns are frozenset(..).
+    Unknown producers are undecided."""
+    from ..defuse import bindings
+
+    def ret_kinds(f: Func, depth: int = 0) -> set:
+        out = set()
+        for r in walk_own(f.node):
+            if isinstance(r, ast.Return) and r.value is not None:
+                out |= kinds(r.value, f, depth + 1)
+        return out
+
+    def kinds(e: ast.AST, f: Func, depth: int = 0) -> set:
+        """kinds of the ELEMENT(s) e stands for: 'set', 'frozenset', '?'"""
+        if depth > 14:
+            return {"?"}
+        if isinstance(e, (ast.Set, ast.SetComp)):
+            return {"set"}
+        if isinstance(e, ast.Call):
+            d = prog.dotted(e.func) or ""
+            if d == "set":
+                return {"set"}
+            if d == "frozenset":
+                return {"frozenset"}
+            if isinstance(e.func, ast.Attribute) and e.func.attr == "values" and not e.args:
+                return kinds(e.func.value, f, depth + 1)       # the values of a dict: kinds of what the dict holds
+            if d.split(".")[-1] == "defaultdict" and e.args:
+                return {"set"} if norm(e.args[0]) == "set" else {"frozenset"} if norm(e.args[0]) == "frozenset" else {"?"}
+            r = prog.resolve_call(e.func, f.mod, f)
+            if r and r[0] == "fn":
+                return ret_kinds(r[1], depth + 1) or {"?"}
+            return {"?"}
+        if isinstance(e, ast.DictComp):
+            return kinds(e.value, f, depth + 1)
+        if isinstance(e, ast.Dict):
+            out = set()
+            for v in e.values:
+                out |= kinds(v, f, depth + 1)
+            return out or {"?"}
+        if isinstance(e, (ast.GeneratorExp, ast.ListComp)):
+            return kinds(e.elt, f, depth + 1)
+        if isinstance(e, ast.Subscript):
+            return kinds(e.value, f, depth + 1)
+        if isinstance(e, ast.IfExp):
+            return kinds(e.body, f, depth + 1) | kinds(e.orelse, f, depth + 1)
+        if isinstance(e, ast.Name):
+            defs = [v for _s, v in bindings(f).get(e.id, []) if v is not None]
+            out = set()
+            for v in defs:
+                out |= kinds(v, f, depth + 1)
+            return out or {"?"}
+        return {"?"}
+    n = 0
+    for fn in prog.funcs.values():
+        for c in walk_own(fn.node):
+            if isinstance(c, ast.Call) and (prog.dotted(c.func) or "") in ("set.union", "set.intersection", "set.difference", "set.symmetric_difference") \
+                    and c.args and isinstance(c.args[0], ast.Starred):
+                n += 1
+                ks = kinds(c.args[0].value, fn)
+                if "frozenset" in ks:
+                    res.bad("R4.t", fn.loc(c), fn.fq, short(c, 70),
+                            f"the elements can be frozensets (producers: {sorted(ks)}): the unbound `{norm(c.func)}` takes the first one as self and raises TypeError; "
+                            "`set().union(*xs)` accepts any iterables")
+                elif ks == {"set"}:
+                    res.ok("R4.t", fn.loc(c), fn.fq, short(c, 70), "every producer of the elements builds a set")
+                else:
+                    res.undecided("R4.t", fn.loc(c), fn.fq, short(c, 70), f"kind of the elements not readable ({sorted(ks)})")
+    if n == 0:
+        res.ok("R4.t", "pyrefact/", "package", "unbound set.union / set.intersection calls with starred arguments", "none", trivial=True)
+
+
 def _r4_r(prog: Program, res: Result) -> None:
     """Contradiction rule for computed indexes: if a function reads `A[e]` only under a test of the index variable against
     len(A) (so it believes the index can be out of range) and reads `B[e]` - the same index expression, B a table built from
@@ -1612,6 +1687,7 @@ class ValidPA(PathAnalysis):
 from ..selftest import Variant  # noqa: E402
 
 VARIANTS = [
+    Variant("unbound-set-union-of-frozensets", "FIRE", "main", "        preserve = set().union(*used_names.values())", "        preserve = set.union(*used_names.values()) if used_names else set()", "R4.t"),
     Variant("unary-node-built-with-the-binary-operator", "FIRE", "fixes", "                        replacement = ast.UnaryOp(op=ast.USub(), operand=replacement)", "                        replacement = ast.UnaryOp(op=body_node.op, operand=replacement)", "R4.s"),
     Variant("boolop-built-with-a-comparison-operator", "FIRE", "symbolic_math", "                yield node, ast.BoolOp(op=ast.And(), values=values)", "                yield node, ast.BoolOp(op=ast.Eq(), values=values)", "R4.s"),
     Variant("line-start-table-read-past-the-end", "FIRE", "core",
